@@ -55,6 +55,12 @@ def advancing_fns(ctx, writers):
 
 
 def run(ctx, rep):
+    run_offset_rules(ctx, rep)
+    run_rest(ctx, rep)
+
+
+def run_offset_rules(ctx, rep):
+    """R3.0–R3.3: tracker/reader bookkeeping (shared with C07 as its rule R7.6)"""
     f = ctx.facts()
     cg = ctx.cg()
     reach = ctx.reachable()
@@ -206,6 +212,13 @@ def run(ctx, rep):
         rep.check(callers == exp, "R3.3", "R3.3|who_may_advance|%s" % w.split("::")[-1], "%s is called only from %s" % (w.split("::")[-1], sorted(x.split("::")[-1] for x in exp)), w,
                   "callers of %s: %s" % (w, sorted(callers)))
 
+
+
+def run_rest(ctx, rep):
+    f = ctx.facts()
+    cg = ctx.cg()
+    reach = ctx.reachable()
+    ev = Evaluator(f)
     # ---- R3.4 range check precedes use
     chk = AP + "input_scanner::sanity_check_offset_next"
     for p in (SCAN + "load_rdh_cru", SCAN + "load_next_rdh_to_filter"):
